@@ -31,6 +31,17 @@ theorem idx_right (idx n : ℕ) : Int.tmod ((idx : Int) + 1) (n : Int) = (((idx 
   rw [h1, Int.tmod_eq_emod_of_nonneg (by omega)]
   exact (Int.natCast_mod _ _).symm
 
+/-- the same neighbour written in the other orders a maintainer might choose (`(idx + n - 1) % n`, `(n + idx - 1) % n`,
+`(1 + idx) % n`): the bridge below must not depend on which one the source uses -/
+theorem idx_left' (idx n : ℕ) (h : idx < n) : Int.tmod (((idx : Int) + (n : Int)) - 1) (n : Int) = (((idx + n - 1) % n : ℕ) : Int) := by
+  rw [← idx_left idx n h]; congr 1; omega
+
+theorem idx_left'' (idx n : ℕ) (h : idx < n) : Int.tmod (((n : Int) + (idx : Int)) - 1) (n : Int) = (((idx + n - 1) % n : ℕ) : Int) := by
+  rw [← idx_left idx n h]; congr 1; omega
+
+theorem idx_right' (idx n : ℕ) : Int.tmod (1 + (idx : Int)) (n : Int) = (((idx + 1) % n : ℕ) : Int) := by
+  rw [← idx_right idx n]; congr 1; omega
+
 theorem cond_eq {β : Type} (x : Array β) (idx : ℕ) (cyclic : Bool) :
     ((¬ (cyclic = true)) ∧ (((idx : Int) = (0 : Int)) ∨ ((idx : Int) = (Gen.arrSize x - (1 : Int))))) ↔
       ((!cyclic && (idx == 0 || idx + 1 == x.size)) = true) := by
@@ -47,8 +58,8 @@ theorem peaklocR_gen_eq (x : Array ℝ) (idx : ℕ) (cyclic : Bool) (h : idx < x
   · rw [if_pos ((cond_eq x idx cyclic).mpr hc), if_pos hc]
     simp
   · rw [if_neg (fun hh => hc ((cond_eq x idx cyclic).mp hh)), if_neg hc]
-    simp only [Gen.arrSize, Int.ofNat_eq_natCast, idx_left idx x.size h, idx_right idx x.size, arrGet_natCast, Gen.zeroR, fn_ofInt, fn_ofNat]
-    simp
+    simp only [Gen.arrSize, Int.ofNat_eq_natCast, idx_left idx x.size h, idx_left' idx x.size h, idx_left'' idx x.size h, idx_right idx x.size, idx_right' idx x.size, arrGet_natCast, Gen.zeroR, fn_ofInt, fn_ofNat]
+    first | (simp; done) | (simp; ring) | (simp; ring_nf)
 
 /-- the regenerated complex overload = the model the driver runs -/
 theorem peaklocC_gen_eq (x : Array (Cx ℝ)) (idx : ℕ) (cyclic : Bool) (h : idx < x.size) :
@@ -58,8 +69,8 @@ theorem peaklocC_gen_eq (x : Array (Cx ℝ)) (idx : ℕ) (cyclic : Bool) (h : id
   · rw [if_pos ((cond_eq x idx cyclic).mpr hc), if_pos hc]
     simp
   · rw [if_neg (fun hh => hc ((cond_eq x idx cyclic).mp hh)), if_neg hc]
-    simp only [Gen.arrSize, Int.ofNat_eq_natCast, idx_left idx x.size h, idx_right idx x.size, arrGet_natCast, Gen.zeroC, Gen.realOfCx, fn_ofInt, fn_ofNat]
-    simp [MathFns.czero]
+    simp only [Gen.arrSize, Int.ofNat_eq_natCast, idx_left idx x.size h, idx_left' idx x.size h, idx_left'' idx x.size h, idx_right idx x.size, idx_right' idx x.size, arrGet_natCast, Gen.zeroC, Gen.realOfCx, fn_ofInt, fn_ofNat]
+    first | (simp [MathFns.czero]; done) | (simp [MathFns.czero]; ring) | (simp [MathFns.czero]; ring_nf)
 
 /-- T18.2 for the REGENERATED real overload: if the three samples around `idx` (cyclic neighbours) lie on
 `a t² + b t + c` with `a ≠ 0`, `peakloc` returns the vertex `-b / (2a)` -/
